@@ -40,6 +40,8 @@ theorem aggStep_inv (s s' : Agg) (l : ALabel) (h : AggInv s) (hs : aggStep s l =
     simp only [aggStep] at hs
     split at hs
     · rename_i p c hr
+      split at hs
+      case isFalse => simp at hs
       simp only [Option.some.injEq] at hs; subst hs
       have hrlt : r < s.rds.length := (List.getElem?_eq_some_iff.1 hr).1
       refine ⟨by simp [hlen], ?_, ?_, ?_⟩
